@@ -38,6 +38,7 @@ type Engine struct {
 	ModulePath string
 
 	mu        sync.Mutex
+	concSched []uint64        // schedule for RunConcrete
 	FuncsSeen map[string]bool // functions whose SSA body was executed
 	StubsSeen map[string]bool // intrinsics / stubs hit
 }
@@ -70,6 +71,7 @@ type Violation struct {
 	Names   []string
 	Widths  []int
 	Prefix  []uint64
+	Sched   []uint64 // schedule decisions of zzverif.Par (thread index among the runnable ones, per visible step)
 	Observe map[string]uint64
 }
 
@@ -124,6 +126,10 @@ type Machine struct {
 	auxVars      []*smt.Term
 	floorCache   map[string]*smt.Term
 	multiples    []multipleOf
+	conc         *concState
+	schedVector  []uint64
+	schedPos     int
+	schedTrace   []uint64
 }
 
 func (m *Machine) abort(kind, msg string) {
@@ -524,7 +530,7 @@ func (m *Machine) recordViolation(kind, msg, site, known string, extras ...*smt.
 		}
 	}
 	pf := append([]uint64(nil), m.trace...)
-	m.viols = append(m.viols, Violation{Kind: kind, Msg: msg, Site: site, Known: known, Vector: vec, Names: names, Widths: ws, Prefix: pf, Observe: obs})
+	m.viols = append(m.viols, Violation{Kind: kind, Msg: msg, Site: site, Known: known, Vector: vec, Names: names, Widths: ws, Prefix: pf, Observe: obs, Sched: append([]uint64(nil), m.schedTrace...)})
 	return true
 }
 
